@@ -4,6 +4,7 @@ Implementation runner, structured generators, the direct oracle (every clause of
 naively on the real code) and the request builder for the Lean model (lean/Verif/C20)."""
 import copy
 import functools
+import glob
 import importlib
 import io
 import json
@@ -16,6 +17,7 @@ import warnings
 
 from .common import paths, semgen, tables
 from .common.runner import Check
+from . import integration
 
 paths.ensure_repo_on_path()
 import delphin.codecs  # noqa: E402
@@ -585,6 +587,9 @@ class C20(Check):
     pid = "C20"
     quick_cases = 1000
     thorough_cases = 6000
+    # integration layer (composition theorems + their own correspondence run): harness/integration.py
+    props_modules = ["Verif.C20.Props", "Verif.Integration.Props"]
+    build_targets = props_modules + ["Verif.C20.Driver", "Verif.Integration.Driver"]
     rule = ("lists of 0-5 MRS/DMRS/EDS items (well-formed tree-built MRS with lnk, surface, constants over an "
             "alphabet of brackets, quotes, backslashes, commas and markup; tree-built DMRS; EDS graphs), every "
             "readable source codec x every writable target codec of a supported representation pair (spelled with "
@@ -627,6 +632,7 @@ class C20(Check):
     def __init__(self):
         self.tmp = None
         self.counter = 0
+        self.lean_files = sorted(glob.glob(os.path.join(paths.LEAN, "Verif", "C20", "*.lean"))) + integration.LEAN_FILES
 
     # ---- generated tables
     def tables(self):
@@ -793,6 +799,7 @@ class C20(Check):
         return case
 
     def cases(self, rng, tier, n):
+        yield integration.block_case(tier)
         # --- plan / error cases (deterministic)
         for s, t in [("invalid", "simplemrs"), ("simplemrs", "invalid"), ("eds", "simplemrs"), ("eds", "dmrx"),
                      ("simpledmrs", "eds"), ("edsjson", "mrs-json"), ("", "simplemrs"), ("simplemrs-lines-lines", "mrx"),
@@ -1049,6 +1056,8 @@ class C20(Check):
 
     # ---- implementation
     def impl(self, case):
+        if case["kind"] == "integration":
+            return integration.block_impl(case)
         if case["kind"] == "plan":
             return self.impl_plan(case)
         out, err = self.run_convert(case)
@@ -1128,6 +1137,8 @@ class C20(Check):
         return res
 
     def model_request(self, case):
+        if case["kind"] == "integration":
+            return None
         if case["kind"] == "plan":
             if norm_name(case["src"]) == ("indexedmrs", False):
                 return None
@@ -1155,6 +1166,8 @@ class C20(Check):
 
     # ---- direct oracle
     def oracle(self, case, res):
+        if case["kind"] == "integration":
+            return integration.block_oracle(res)
         fails = []
 
         def fail(clause, detail):
@@ -1343,6 +1356,8 @@ class C20(Check):
         def inc(k):
             counters[k] = counters.get(k, 0) + 1
         inc("kind:" + case["kind"])
+        if case["kind"] == "integration":
+            return integration.block_stats(res, counters)
         if case["kind"] == "plan":
             inc("plan:" + ("err:" + res["err"] if res and "err" in res else "ok"))
             return
